@@ -190,8 +190,20 @@ def pyDec (v : Int) : List Char :=
 def pyHex (v : Int) : List Char :=
   if v < 0 then '-' :: '0' :: 'x' :: natStr 16 v.natAbs else '0' :: 'x' :: natStr 16 v.natAbs
 
-/-- `get_field_init_literal(proto, value)` for the values whose text is modelled (None, bool, int);
-    floats go through Python's `repr`, strings/lists/objects through `str`: not modelled (`none`). -/
+/-- the Python float unpacked from this pattern is a NaN -/
+def pyIsNaN32 (b : Nat) : Bool := (b >>> 23) &&& 0xff == 0xff && b &&& 0x7fffff != 0
+def pyIsNaN64 (b : Nat) : Bool := (b >>> 52) &&& 0x7ff == 0x7ff && b &&& 0xfffffffffffff != 0
+
+def floatSpecial (proto : String) (nan posInf negInf : Bool) : Option (List Char) :=
+  let box := if proto = "F" then "Float".toList else "Double".toList
+  if nan then some (box ++ ".NaN".toList)
+  else if posInf then some (box ++ ".POSITIVE_INFINITY".toList)
+  else if negInf then some (box ++ ".NEGATIVE_INFINITY".toList)
+  else none
+
+/-- `get_field_init_literal(proto, value)` for the values whose text is modelled (None, bool, int, non-finite
+    float); finite floats go through Python's `repr`, strings/lists/objects through `str`: not modelled
+    (`none`). -/
 def printInit (proto : String) : Value → Option (List Char)
   | .null => some "null".toList
   | .bool b => some (if b then "true".toList else "false".toList)
@@ -199,6 +211,10 @@ def printInit (proto : String) : Value → Option (List Char)
     if proto = "B" then some (pyHex v)
     else if proto = "J" then some (pyDec v ++ ['L'])
     else some (pyDec v)
+  -- isinstance(value, float): `value != value` -> box.NaN, ±inf -> box.POSITIVE/NEGATIVE_INFINITY with
+  -- box = 'Float' if proto == 'F' else 'Double'; finite values go through repr(): not modelled
+  | .float b => floatSpecial proto (pyIsNaN32 b) (b == 0x7f800000) (b == 0xff800000)
+  | .double b => floatSpecial proto (pyIsNaN64 b) (b == 0x7ff0000000000000) (b == 0xfff0000000000000)
   | _ => none
 
 end AgVerif.EncodedValue
